@@ -27,7 +27,7 @@ def do_check(pid, tier, seed):
         return 2
     c = CHECKS[pid]
     t0 = time.time()
-    work = os.path.join(R.OUT, "run", f"{pid}-{tier}")
+    work = os.path.join(R.OUT, "run", f"{pid}-{tier}" + os.environ.get("VERIF_RUNTAG", ""))
     shutil.rmtree(work, ignore_errors=True)
     os.makedirs(work, exist_ok=True)
     try:
